@@ -100,6 +100,14 @@ func (c *FnCtx) evalCall(st *State, call *ast.CallExpr) Val {
 			return c.freshVal(resT, "res")
 		}
 		args := c.evalArgs(st, call, sig)
+		// a package-level function variable (a parser built from combinators) with an assumed contract
+		if id, ok := unparen(call.Fun).(*ast.Ident); ok {
+			if v, ok := c.info.ObjectOf(id).(*types.Var); ok && v.Pkg() != nil && v.Parent() == v.Pkg().Scope() {
+				if fs, ok := c.eng.contracts.Funcs[v.Pkg().Name()+"."+v.Name()]; ok {
+					return c.callByContract(st, fs, sig, nil, args, call.Pos(), v.Pkg().Name()+"."+v.Name())
+				}
+			}
+		}
 		if fv.Lit != nil {
 			// a literal that is itself under contract is called through its contract
 			if key, ok := c.eng.litKeys[fv.Lit.lit]; ok {
